@@ -123,6 +123,9 @@ func (g *GW) StartWith(sh *gateway.VShared, predefined topics.PredefinedTopics) 
 				if g.Cfg.EnforceKeepAlive {
 					if p.Type == refmqtt.CONNECT {
 						ka = time.Duration(p.KeepAlive) * time.Second
+						if ka == 0 && watchdog != nil {
+							watchdog.Stop() // keep-alive 0: the broker never times this client out
+						}
 					}
 					if ka > 0 {
 						arm(ka * 3 / 2)
